@@ -140,6 +140,10 @@ func adapterAddress(key, cmd string) string {
 	if len(mc.m) != 1 {
 		return "?"
 	}
+	// the lookup side must use the same address: the entry just stored has to be a hit
+	if v, _ := st.Flight(key, cmd, time.Minute, now); rueidis.VerifTyp(&v) == 0 {
+		return "?lookup-misses-what-update-stored"
+	}
 	for k := range mc.m {
 		return k
 	}
